@@ -23,6 +23,16 @@ What is modelled, line by line from `time.rs`:
 * `exit_after(p)` / `kill_after(p)`: `sleep(p)` then
   `stop(Some(format!("Exit after {}ms", p.as_millis())))` (the millisecond count TRUNCATES) / `kill()`.
 * `JoinHandle::abort` : a pending task never runs again (`cancelled`).
+* dropping the `JoinHandle` (`dropHandle i`) DETACHES the task: it runs on exactly as if the handle
+  were held; only the handle's own answer can no longer be read (`State.dropped`, a ghost set that no
+  step reads). An `AbortHandle` taken before the drop still aborts.
+* `send_interval(Duration::ZERO)`: `tokio::time::interval` asserts `period > 0` — the assertion is
+  the first thing the spawned task does, so the task PANICS at its first poll: nothing is ever sent, the
+  `JoinHandle` yields a `JoinError` that `is_panic` (`Res.panicked`). The API call itself returns normally.
+* huge periods (`Duration::MAX`, `u64::MAX` µs): the model's deadline is the exact `armed + p`. tokio
+  saturates (`sleep`: `Instant::far_future()` ≈ now + 30 years when `now + p` overflows; `Interval`:
+  `timeout.checked_add(period).unwrap_or_else(far_future)`), which differs from the exact deadline only
+  beyond 30 years of virtual time — never reached by the tie (`C12.beyond_horizon`).
 * target: `send_message` is refused once the status is ≥ Draining (`closedAt`); `stop` and `kill`
   go to one-shot ports (the first request wins) and are acted on when the target's task next runs,
   kill before stop before messages (`Target.run`); `drain()` closes admission at once, the
@@ -47,6 +57,8 @@ inductive Kind | sendAfter | interval | exitAfter | killAfter
 
 /-- Outcome of the timer's `JoinHandle`. -/
 inductive Res | pending | ok | err | cancelled
+  /-- the task panicked (`JoinError::is_panic`): `tokio::time::interval` asserts `period > 0` -/
+  | panicked
   deriving DecidableEq, Repr
 
 inductive Reason | manual | drained | killed | exitAfter (ms : Nat)
@@ -226,6 +238,8 @@ def fireArmed (now id a : Nat) (τ : Timer) (T : Target) : Timer × Target :=
 /-- One poll of timer task `id`. -/
 def fireOne (now id : Nat) (τ : Timer) (T : Target) : Timer × Target :=
   if τ.res ≠ .pending then (τ, T)
+  -- `interval(Duration::ZERO)`: "`period` must be non-zero." — the task panics at its first poll
+  else if τ.kind = .interval ∧ τ.period = 0 then (τ.finish .panicked now, T)
   else fireArmed now id (τ.armed.getD now) (τ.arm now) T
 
 structure State where
@@ -234,6 +248,8 @@ structure State where
   timers : List Timer := []
   /-- ghost: clock values at the quiescent points of a macro run -/
   visits : List Nat := []
+  /-- ghost: timers whose `JoinHandle` was dropped (the task is detached). No step reads it. -/
+  dropped : List Nat := []
   deriving DecidableEq, Repr
 
 inductive Op
@@ -246,13 +262,12 @@ inductive Op
   | mark
   /-- harness: gate `post_stop` / open the gate -/
   | hold | psrelease
+  /-- the `JoinHandle` of timer `i` is dropped -/
+  | dropHandle (i : Nat)
   deriving DecidableEq, Repr
 
 def step (s : State) : Op → State
-  | .create k p =>
-    -- tokio's `interval` panics on a zero period: not a timer (never generated)
-    if k = .interval ∧ p = 0 then s
-    else { s with timers := s.timers ++ [{ kind := k, period := p, created := s.now }] }
+  | .create k p => { s with timers := s.timers ++ [{ kind := k, period := p, created := s.now }] }
   | .tick d => { s with now := s.now + d }
   | .fire i =>
     match s.timers[i]? with
@@ -272,6 +287,14 @@ def step (s : State) : Op → State
   | .mark => { s with visits := s.visits ++ [s.now] }
   | .hold => { s with target := { s.target with psGate := true } }
   | .psrelease => { s with target := s.target.release s.now }
+  | .dropHandle i => { s with dropped := s.dropped ++ [i] }
+
+/-- everything but the ownership of the handles: clock, target, timers, quiescent points -/
+def State.seen (s : State) : State := { s with dropped := [] }
+
+def Op.isDrop : Op → Bool
+  | .dropHandle _ => true
+  | _ => false
 
 def steps (s : State) (ops : List Op) : State := ops.foldl step s
 
@@ -287,6 +310,10 @@ inductive MOp
   | abort (i : Nat)
   | stop | kill | drain
   | hold | psrelease
+  /-- drop the `JoinHandle` of timer `i` (at a quiescent point / after moving the clock, before the
+  time driver runs) -/
+  | dropHandle (i : Nat)
+  | advDrop (d i : Nat)
   deriving DecidableEq, Repr
 
 def fireAll (n : Nat) : List Op := (List.range n).map Op.fire
@@ -307,6 +334,8 @@ def expand (s : State) : MOp → List Op
   | .drain => [.drain, .target, .mark]
   | .hold => [.hold, .mark]
   | .psrelease => [.psrelease, .target, .mark]
+  | .dropHandle i => [.dropHandle i, .mark]
+  | .advDrop d i => [.tick d, .dropHandle i] ++ fireAll s.timers.length ++ [.target, .mark]
 
 def mstep (s : State) (m : MOp) : State := steps s (expand s m)
 def mrun (s : State) (ms : List MOp) : State := ms.foldl mstep s
@@ -335,7 +364,8 @@ def shotOk (τ : Timer) : Bool :=
      | .pending => τ.sentAt.isEmpty
      | .cancelled => τ.sentAt.isEmpty
      | .ok => τ.sentAt.length == 1
-     | .err => τ.sentAt.length == 1 && τ.kind == .sendAfter)
+     | .err => τ.sentAt.length == 1 && τ.kind == .sendAfter
+     | .panicked => false)
 
 /-- a finished task acted for the last time no later than it finished -/
 def finOk (now : Nat) (τ : Timer) : Bool :=
@@ -358,6 +388,11 @@ def acceptOk (cl : Option Nat) (τ : Timer) : Bool :=
      | .err => (match cl with | some tc => τ.sentAt.all (fun t => decide (tc ≤ t)) | none => false)
      | _ => true)
 
+/-- only `send_interval(Duration::ZERO)` panics, and it never sends anything -/
+def panicOk (τ : Timer) : Bool :=
+  (τ.res != .panicked || (τ.kind == .interval && τ.period == 0)) &&
+  (!(τ.kind == .interval && τ.period == 0) || τ.sentAt.isEmpty)
+
 def timerOk (s : State) (τ : Timer) : Bool :=
   -- never early, measured from the API call
   earlyOk τ.created τ.period 0 τ.sentAt
@@ -368,6 +403,7 @@ def timerOk (s : State) (τ : Timer) : Bool :=
   && finOk s.now τ
   && closedOk s.target.closedAt τ
   && acceptOk s.target.closedAt τ
+  && panicOk τ
 
 /-- Where an exit reason can come from. -/
 def reasonOk (s : State) (r : Reason) (te : Nat) : Bool :=
@@ -416,6 +452,8 @@ def timerPromptOk (s : State) (τ : Timer) : Bool :=
   && diesOk s τ
   -- at a quiescent point every pending one-shot timer is strictly before its deadline
   && (!(τ.kind.oneShot && τ.res == .pending) || decide (s.now < ceilMs (τ.created + τ.period)))
+  -- a zero-period interval is gone (panicked, or aborted) by the first quiescent point
+  && !(τ.kind == .interval && τ.period == 0 && τ.res == .pending)
 
 /-- C12, clauses that hold at the quiescent points of a macro run. -/
 def okPrompt (s : State) : Bool := s.timers.all (timerPromptOk s)
